@@ -295,7 +295,10 @@ def resupplied_rule(prog, rep, rid, only):
         if only is not None and cname not in only:
             continue
         K = prog.cls(cname)
-        for mn in ("frombytes", "__init__"):
+        # the constructor and every alternate constructor that takes the strategy (frombytes, and whatever else the class offers:
+        # load_error_rate, init_error_rate, ...)
+        alt = sorted({m.src_name for k_ in K.mro() for m in k_.methods.values() if m.kind == "classmethod" and "hash_function" in m.params})
+        for mn in ["frombytes", "__init__"] + [a for a in alt if a != "frombytes"]:
             f = K.find_method(mn)
             if f is None or "hash_function" not in f.params:
                 continue
@@ -341,6 +344,76 @@ def resupplied_rule(prog, rep, rid, only):
 def _closed(v) -> bool:
     """a value without any symbol: constants and tuples / arithmetic of constants"""
     return all(n[0] in ("c", "tup", "lst", "bin", "nary", "un") or not isinstance(n[0], str) for n in walk(v))
+
+
+def _negative_returns(prog, cname, g, depth=0):
+    """the negative constants method g of class cname can return (a sentinel such as -1)"""
+    out = set()
+    if depth > 2:
+        return out
+    for p in paths(prog, cname, g):
+        if p.exit[0] != "return":
+            continue
+        v = strip_epochs(p.exit[1])
+        while v[0] == "call" and v[1] in (("g", "int"),) and len(v[2]) == 1:
+            v = v[2][0]
+        if v[0] == "c" and isinstance(v[1], (int, float)) and not isinstance(v[1], bool) and v[1] < 0:
+            out.add(v[1])
+        if v[0] == "un" and v[1] == "-" and v[2][0] == "c" and isinstance(v[2][1], (int, float)) and v[2][1] > 0:
+            out.add(-v[2][1])
+        if v[0] == "ret":
+            h = _method_by_qual(prog, v[1].split("@")[0])
+            if h is not None and h is not g:
+                out |= _negative_returns(prog, cname, h, depth + 1)
+    return out
+
+
+def _method_by_qual(prog, qual):
+    for c in prog.classes.values():
+        for m in list(c.methods.values()) + list(c.getters.values()):
+            if m.qualname == qual:
+                return m
+    return None
+
+
+def unsigned_slots_rule(prog, rep, rid, samples):
+    """for the Bloom family (footer 'QQf': est_elements, elements_added as unsigned 64-bit): wherever a method of the class stores into
+    one of these fields the answer of another method of the class, that method has no path returning a negative constant.  Only this
+    definite flow is judged (a sentinel such as -1 reaching the field); sums and differences are C14 / C16 territory"""
+    UNSIGNED = set("BHILQN")
+    for cname, smp in sorted(samples.items()):
+        K = prog.classes.get(cname)
+        if K is None or "format" not in smp:
+            continue
+        chars = [c for c in expand_format(smp["format"])]
+        flds = {f for (i, f) in smp["slots"] if i < len(chars) and chars[i] in UNSIGNED}
+        if not flds:
+            continue
+        hits = []
+        for g in list(K.methods.values()):
+            hit = None
+            for p in paths(prog, cname, g):
+                for e in p.events:
+                    if e.kind != "setfield" or e.name not in flds or not (e.base == SELF or e.base[0] == "new"):
+                        continue
+                    v = strip_epochs(e.value)
+                    if v[0] == "ret":
+                        h = _method_by_qual(prog, v[1].split("@")[0])
+                        neg = _negative_returns(prog, cname, h) if h is not None else set()
+                        if neg:
+                            hit = hit or (e, h, sorted(neg))
+            if hit:
+                hits.append((g,) + hit)
+            elif any(e.kind == "setfield" and e.name in flds for p in paths(prog, cname, g) for e in p.events):
+                rep.ok(rid, f"{cname}.{g.src_name}: no negative sentinel reaches {sorted(flds)}")
+        # one report per (class, field, answering method), whichever functions do the storing today (a shared helper, the operations themselves)
+        for key in sorted({(e.name, h.src_name, neg[0]) for (_, e, h, neg) in hits}):
+            gs = sorted({g.src_name for (g, e, h, neg) in hits if (e.name, h.src_name, neg[0]) == key})
+            e0 = [e for (g, e, h, neg) in hits if (e.name, h.src_name, neg[0]) == key][0]
+            rep.bad(rid, cname, f"{key[0]} may be set to the answer {key[2]} of {key[1]}()",
+                    f"{', '.join(gs)} store(s) the answer of {key[1]}() into {key[0]}, which is packed as an unsigned footer slot, and {key[1]}() can answer {key[2]} "
+                    f"(its 'cannot tell' value): the result then cannot be exported - pack raises struct.error (two Bloom filters with every bit set: the union / "
+                    f"intersection has elements_added == -1 and bytes() of it raises)", e0.where())
 
 
 def derived_on_load_rule(prog, rep, rid):
@@ -793,6 +866,8 @@ def check(prog, rep, tier):
     resupplied_rule(prog, rep, "C05.resupplied", None)
     rep.rule("C05.derived-on-load", "a field the parameter branch of a constructor computes is not left at a placeholder constant by the loading branch", floor=12)
     derived_on_load_rule(prog, rep, "C05.derived-on-load")
+    rep.rule("C05.unsigned-slots", "a field packed into an unsigned footer slot is never set to the negative answer of a method of the class (pack would raise: the structure cannot be exported)", floor=4)
+    unsigned_slots_rule(prog, rep, "C05.unsigned-slots", samples)
     from .C07 import fingerprint_final_geometry
     fingerprint_final_geometry(prog, rep, "C05.resupplied-error-rate")
     rep.extra["formats"] = samples
@@ -838,6 +913,10 @@ MUTANTS = [
         insert_stmt("CountMinSketch", "__init__", "self._half = 0", before="self.__elements_added = 0"),
         insert_stmt("CountMinSketch", "__init__", "self._half = self.depth // 2", after="self._bins = array("),
         insert_stmt("CountMinSketch", "_parse_bytes", "self._half = self.depth // 2", at_end=True)), expect="silent"),
+    Mutant("jaccard-style shortcut stores the estimate sentinel into the element count in one more place", _B,
+           insert_stmt("BloomFilter", "clear", "self._els_added = self.estimate_elements()", at_end=True), rule="C05.unsigned"),
+    Mutant("the estimate is clamped at 0 before it becomes the element count (no negative reaches the slot)", _B,
+           insert_stmt("BloomFilter", "clear", "self._els_added = max(self.estimate_elements(), 0)", at_end=True), expect="silent"),
     Mutant("expanding __load forgets the total", _E, del_stmt("ExpandingBloomFilter", "__load", "self._added_elements = els_added"), rule="C05.slot"),
     Mutant("expanding frombytes forgets the total", _E, del_stmt("ExpandingBloomFilter", "frombytes", "blm._added_elements = added_els"), rule="C05.slot"),
     Mutant("CountMinSketch.__bytes__ with its own body", _CM, replace_stmt("CountMinSketch", "__bytes__", "with BytesIO() as f", "return self._bins.tobytes()"), rule="C05.one-body"),
